@@ -224,6 +224,10 @@ pub struct Ctl<S> {
     pub ops_shared: Rc<Cell<u64>>,   // mirrors c.ops for an observer that does not own the stream
     pub fired_shared: Rc<Cell<bool>>,
     pub bytes_shared: Rc<Cell<u64>>, // bytes read + written
+    /// armed from outside while a library object owns the stream: 0 = off; 1 = the next call of
+    /// any kind fails; n >= 2 = writes accept n-2 more bytes in total, then the next write fails.
+    /// Disarms itself when it fires.
+    pub arm_shared: Rc<Cell<u64>>,
 }
 
 impl<S> Ctl<S> {
@@ -241,6 +245,7 @@ impl<S> Ctl<S> {
             ops_shared: Rc::new(Cell::new(0)),
             fired_shared: Rc::new(Cell::new(false)),
             bytes_shared: Rc::new(Cell::new(0)),
+            arm_shared: Rc::new(Cell::new(0)),
         }
     }
     fn rnd(&mut self) -> u64 {
@@ -273,6 +278,16 @@ impl<S> Ctl<S> {
             false
         }
     }
+    // armed fault on a call that is not a write
+    fn armed_any(&mut self) -> bool {
+        if self.arm_shared.get() == 1 {
+            self.arm_shared.set(0);
+            self.fired_shared.set(true);
+            true
+        } else {
+            false
+        }
+    }
     fn budget_err() -> io::Error {
         io::Error::new(io::ErrorKind::Other, "verif: operation budget exhausted")
     }
@@ -290,7 +305,7 @@ impl<S: Read> Read for Ctl<S> {
             return Err(Self::budget_err());
         }
         let mine = matches!(self.fault_kind, FaultKind::ReadErr | FaultKind::AnyErr);
-        if self.fires(mine) {
+        if self.fires(mine) || self.armed_any() {
             return Err(Self::fault_err());
         }
         let mut n = buf.len();
@@ -325,7 +340,21 @@ impl<S: Write> Write for Ctl<S> {
             }
             return Err(Self::fault_err());
         }
+        if self.armed_any() {
+            return Err(Self::fault_err());
+        }
         let mut n = buf.len();
+        let armed = self.arm_shared.get();
+        if armed >= 2 && n > 0 {
+            let left = (armed - 2) as usize;
+            if left == 0 {
+                self.arm_shared.set(0);
+                self.fired_shared.set(true);
+                return Err(Self::fault_err());
+            }
+            n = n.min(left);
+            self.arm_shared.set(armed - n as u64);
+        }
         if self.split != 0 && n > 0 {
             if self.interrupts && self.rnd() % 4 == 0 {
                 return Err(io::Error::new(io::ErrorKind::Interrupted, "verif: interrupted"));
@@ -351,7 +380,7 @@ impl<S: Seek> Seek for Ctl<S> {
             return Err(Self::budget_err());
         }
         let mine = matches!(self.fault_kind, FaultKind::SeekErr | FaultKind::AnyErr);
-        if self.fires(mine) {
+        if self.fires(mine) || self.armed_any() {
             return Err(Self::fault_err());
         }
         self.inner.seek(to)
